@@ -97,7 +97,6 @@ var c03Entries = []c03Entry{
 	{pClient, "(*clientImpl).TCP"}, {pClient, "(*tcpConn).Read"}, {pClient, "(*clientImpl).connect"},
 	{pSniff, "(*Sniffer).TCP"}, {pSniff, "(*Sniffer).UDP"}, {pSniff, "(*Sniffer).Check"},
 	{pSniffQUIC, "ReadCryptoPayload"},
-	{pObfs, "(*salamanderObfuscator).Obfuscate"}, {pObfs, "(*salamanderObfuscator).Deobfuscate"},
 	{pObfs, "(*obfsPacketConn).ReadFrom"}, {pObfs, "(*obfsPacketConn).WriteTo"},
 	{pObfs, "(*geckoPacketConn).ReadFrom"}, {pObfs, "(*geckoPacketConn).WriteTo"},
 	{pObfs, "decodeFrame"}, {pObfs, "encodeFrame"},
@@ -143,7 +142,7 @@ func c03Scope(c *Check) map[*ssa.Function]bool {
 		push(p.Fn(e.pkg, e.name))
 	}
 	// every implementation of the hook / obfuscator / congestion interfaces
-	for _, it := range []struct{ pkg, name string }{{pServer, "RequestHook"}, {pObfs, "Obfuscator"}} {
+	for _, it := range []struct{ pkg, name string }{{pServer, "RequestHook"}, {pObfs, "obfuscator"}} {
 		if nt := p.Named(it.pkg, it.name); nt != nil {
 			if iface, ok := nt.Underlying().(*types.Interface); ok {
 				for _, impl := range p.Implementations(iface) {
@@ -312,9 +311,171 @@ func tablesDir() string {
 // (preconditions over the parameters, verified at every call site inside the
 // repository and then available to the prover inside the function).
 type c03Table struct {
-	Contracts map[string][]string `json:"contracts"`
-	Justified []c03Just           `json:"justified"`
+	Axioms    []linAxiom `json:"axioms"`
+	Justified []c03Just  `json:"justified"`
 	just      map[string]c03Just
+}
+
+// lookup: exact site entry, or a function-level entry (site "*", kind exact or "*").
+func (t *c03Table) lookup(fn, kind, site string) (c03Just, bool) {
+	for _, k := range []string{fn + "|" + kind + "|" + site, fn + "|" + kind + "|*", fn + "|*|*"} {
+		if j, ok := t.just[k]; ok {
+			return j, true
+		}
+	}
+	return c03Just{}, false
+}
+
+// c03Lifter verifies a precondition over a function's parameters at every call
+// site of that function (all of which must be visible: the function is not
+// exported outside the repository and never used as a value).
+type c03Lifter struct {
+	c       *Check
+	p       *Prog
+	escaped map[*ssa.Function]bool
+	provers map[*ssa.Function]*linProver
+	memo    map[string]bool
+	nSites  int
+}
+
+func newC03Lifter(c *Check) *c03Lifter {
+	l := &c03Lifter{c: c, p: c.P, escaped: map[*ssa.Function]bool{}, provers: map[*ssa.Function]*linProver{}, memo: map[string]bool{}}
+	for _, fn := range c.P.RepoFns {
+		allInstrs(fn, func(in ssa.Instruction) {
+			for _, op := range in.Operands(nil) {
+				f, ok := (*op).(*ssa.Function)
+				if !ok {
+					continue
+				}
+				if ci, isCall := in.(ssa.CallInstruction); isCall && ci.Common().Value == ssa.Value(f) {
+					continue
+				}
+				l.escaped[f] = true
+			}
+		})
+	}
+	return l
+}
+
+func (l *c03Lifter) liftable(fn *ssa.Function) bool {
+	if fn.Parent() != nil || l.escaped[fn] || fn.Object() == nil {
+		return false
+	}
+	pk := fnPkg(fn)
+	if pk == nil {
+		return false
+	}
+	// every caller must be inside the repository: unexported, or living in an internal package
+	if fn.Object().Exported() && !strings.Contains(pk.Pkg.Path(), "/internal/") {
+		return false
+	}
+	if recv := fn.Signature.Recv(); recv != nil && fn.Object().Exported() {
+		// an exported method may be reached through an interface from outside
+		if !strings.Contains(pk.Pkg.Path(), "/internal/") {
+			return false
+		}
+	}
+	return true
+}
+
+func (l *c03Lifter) prover(fn *ssa.Function) *linProver {
+	lp := l.provers[fn]
+	if lp == nil {
+		lp = newLinProver(l.p, fn)
+		l.provers[fn] = lp
+	}
+	return lp
+}
+
+// verify: `pre <= 0` (over fn's parameters) holds at every call site of fn.
+func (l *c03Lifter) verify(fn *ssa.Function, pre lin, what string, depth int) (bool, string) {
+	if !l.liftable(fn) {
+		return false, ""
+	}
+	mkey := fn.String() + "|" + pre.String()
+	if v, ok := l.memo[mkey]; ok {
+		return v, "precondition fails at a call site"
+	}
+	l.memo[mkey] = false
+	node := l.p.VTA().Nodes[fn]
+	if node == nil || len(node.In) == 0 {
+		return false, "no call site inside the repository"
+	}
+	const r3 = "C03.R3 a precondition over a function's parameters that the prover needs for a site inside the function holds at every call site of that function (proved there from the caller's dominating guards, or lifted once more)"
+	n := 0
+	for _, e := range node.In {
+		if e.Site == nil || e.Caller == nil {
+			return false, "called from an unknown site"
+		}
+		caller := e.Caller.Func
+		if !l.p.IsRepoFn(caller) {
+			return false, "called from outside the repository (" + caller.String() + ")"
+		}
+		if _, isGo := e.Site.(*ssa.Go); isGo {
+			// arguments are evaluated at the go statement: same proof obligation
+		}
+		n++
+		clp := l.prover(caller)
+		cx := clp.newCtx(e.Site)
+		sub := linConst(pre.k)
+		okSub := true
+		for a, coef := range pre.c {
+			var prm *ssa.Parameter
+			kind := "val"
+			switch x := a.(type) {
+			case *ssa.Parameter:
+				prm = x
+			case *lenMarker:
+				prm, _ = x.x.(*ssa.Parameter)
+				kind = "len"
+				if x.cap {
+					kind = "cap"
+				}
+			}
+			idx := -1
+			for i, q := range fn.Params {
+				if q == prm {
+					idx = i
+				}
+			}
+			arg := c03ArgAt(e.Site, idx)
+			if prm == nil || idx < 0 || arg == nil {
+				okSub = false
+				break
+			}
+			switch kind {
+			case "len":
+				sub = sub.addScaled(clp.lenOf(arg, cx), coef)
+			case "cap":
+				sub = sub.addScaled(clp.capOf(arg, cx), coef)
+			default:
+				sub = sub.addScaled(clp.lin(arg, cx), coef)
+			}
+		}
+		key := "C03.R3:" + fnName(fn) + "@" + fnName(caller) + ":" + what
+		pos := l.p.InstrPos(e.Site)
+		if !okSub {
+			return false, "argument not resolvable at " + pos
+		}
+		ok, pres2 := clp.ProveOrLift(e.Site, sub, linConst(0))
+		if !ok && depth < 2 {
+			for _, pre2 := range pres2 {
+				if ok, _ = l.verify(caller, pre2, what, depth+1); ok {
+					break
+				}
+			}
+		}
+		if !ok {
+			return false, fmt.Sprintf("%s does not establish it before the call at %s", fnName(caller), pos)
+		}
+		l.nSites++
+		l.c.OK(key, r3, pos)
+	}
+	if n == 0 {
+		return false, "no call site inside the repository"
+	}
+	l.memo[mkey] = true
+	return true, ""
 }
 
 func loadC03Table() (*c03Table, error) {
@@ -391,7 +552,8 @@ func checkC03(c *Check) {
 		return fmt.Sprintf("%s:%d:%d", ps.Filename, ps.Line, ps.Column)
 	}
 	usedBCE := map[string]bool{}
-	usedContracts := map[string]*ssa.Function{}
+	linAxioms, linAxiomUsed = table.Axioms, map[int]bool{}
+	lifter := newC03Lifter(c)
 	counts := map[string]int{}
 	dup := map[string]int{}
 	var dump []c03Just
@@ -399,23 +561,6 @@ func checkC03(c *Check) {
 	for _, fn := range fns {
 		c.Saw(fnName(fn))
 		lp := newLinProver(p, fn)
-		if cs := table.Contracts[fnName(fn)]; len(cs) > 0 {
-			cx := lp.newCtx(fn.Blocks[0].Instrs[0])
-			for _, s := range cs {
-				L, R, err := parseContract(s, func(i int) ssa.Value {
-					if i < len(fn.Params) {
-						return fn.Params[i]
-					}
-					return nil
-				}, lp, cx)
-				if err != nil {
-					c.Unres(err.Error())
-					continue
-				}
-				lp.pre = append(lp.pre, linFact{L.sub(R), "contract " + s})
-			}
-			usedContracts[fnName(fn)] = fn
-		}
 		var sites []c03Site
 		allInstrs(fn, func(in ssa.Instruction) {
 			switch x := in.(type) {
@@ -485,50 +630,64 @@ func checkC03(c *Check) {
 			if dup[base] > 1 {
 				sk = fmt.Sprintf("%s#%d", sk, dup[base])
 			}
-			full := fnName(fn) + "|" + kind + "|" + sk
 			okey := "C03.R1:" + fnName(fn) + ":" + kind + ":" + sk
 			pos := p.InstrPos(s.in)
-			proved, missing := false, ""
+			var goals []linGoal
+			missing := ""
+			cx := lp.newCtx(s.in)
 			switch kind {
 			case "bounds":
-				proved, missing = lp.siteBounds(s.in)
-				if !proved && os.Getenv("HV_C03_DEBUG") == fnName(fn) {
-					if sl, ok := s.in.(*ssa.Slice); ok && sl.High != nil {
-						cx := lp.newCtx(s.in)
-						fmt.Fprintf(os.Stderr, "DEBUG %s %s missing %s\n%s", fnName(fn), sk, missing, lp.DebugFacts(s.in, lp.lin(sl.High, cx), lp.capOf(sl.X, cx)))
-					}
-					if ia, ok := s.in.(*ssa.IndexAddr); ok {
-						cx := lp.newCtx(s.in)
-						fmt.Fprintf(os.Stderr, "DEBUG %s %s missing %s\n%s", fnName(fn), sk, missing, lp.DebugFacts(s.in, lp.lin(ia.Index, cx).add(linConst(1)), lp.lenOf(ia.X, cx)))
-					}
-				}
+				goals = lp.siteGoals(s.in)
 			case "div":
-				y := s.in.(*ssa.BinOp).Y
-				cx := lp.newCtx(s.in)
-				proved = lp.proveAt(s.in, linConst(1), lp.lin(y, cx), 0, nil)
-				missing = "divisor >= 1"
+				goals = []linGoal{{linConst(1), lp.lin(s.in.(*ssa.BinOp).Y, cx), "divisor >= 1"}}
 			case "rand":
 				call := s.in.(*ssa.Call)
-				n := call.Call.Args[len(call.Call.Args)-1]
-				cx := lp.newCtx(s.in)
-				proved = lp.proveAt(s.in, linConst(1), lp.lin(n, cx), 0, nil)
-				missing = "argument >= 1"
+				goals = []linGoal{{linConst(1), lp.lin(call.Call.Args[len(call.Call.Args)-1], cx), "argument >= 1"}}
 			case "make":
-				ln := s.in.(*ssa.MakeSlice).Len
-				cx := lp.newCtx(s.in)
-				proved = lp.proveAt(s.in, linConst(0), lp.lin(ln, cx), 0, nil)
-				missing = "length >= 0"
+				goals = []linGoal{{linConst(0), lp.lin(s.in.(*ssa.MakeSlice).Len, cx), "length >= 0"}}
 			case "assert":
 				missing = "type assertion without comma-ok"
 			case "panic":
 				missing = "explicit panic reachable"
 			}
+			proved := missing == ""
+			nLift := 0
+			for _, g := range goals {
+				ok, pres := lp.ProveOrLift(s.in, g.L, g.R)
+				if ok {
+					continue
+				}
+				lifted, why := false, ""
+				for _, pre := range pres {
+					okL, w := lifter.verify(fn, pre, g.What, 0)
+					if okL {
+						lifted = true
+						break
+					}
+					if why == "" {
+						why = w
+					}
+				}
+				if lifted {
+					nLift++
+					continue
+				}
+				proved, missing = false, g.What
+				if why != "" {
+					missing += " (needs the callers to establish it: " + why + ")"
+				}
+				break
+			}
 			if proved {
-				counts["hv-proved"]++
+				if nLift > 0 {
+					counts["hv-proved-with-caller-preconditions"]++
+				} else {
+					counts["hv-proved"]++
+				}
 				c.OK(okey, r1, pos)
 				continue
 			}
-			if j, ok := table.just[full]; ok {
+			if j, ok := table.lookup(fnName(fn), kind, sk); ok {
 				counts["table"]++
 				c.OK(okey, r1+" [justified: "+j.Reason+"]", pos)
 				continue
@@ -545,63 +704,11 @@ func checkC03(c *Check) {
 		_ = os.WriteFile(os.Getenv("HV_C03_DUMP"), b, 0o644)
 		c.Notes = append(c.Notes, fmt.Sprintf("dumped %d unjustified sites", len(dump)))
 	}
-	// ---- R3: contracts hold at every call site inside the repository
-	const r3 = "C03.R3 a precondition the prover assumes about a function's parameters holds at every call site of that function inside the repository (proved there from the caller's dominating guards)"
-	cg := p.VTA()
-	var cnames []string
-	for n := range table.Contracts {
-		cnames = append(cnames, n)
-	}
-	sort.Strings(cnames)
-	for _, name := range cnames {
-		fn := usedContracts[name]
-		if fn == nil {
-			c.Unres("contract for " + name + ": no such function in the C03 scope")
-			continue
-		}
-		node := cg.Nodes[fn]
-		nSites := 0
-		if node != nil {
-			for _, e := range node.In {
-				if e.Site == nil || e.Caller == nil || !p.IsRepoFn(e.Caller.Func) {
-					continue
-				}
-				nSites++
-				caller := e.Caller.Func
-				clp := newLinProver(p, caller)
-				if cs := table.Contracts[fnName(caller)]; len(cs) > 0 {
-					ccx := clp.newCtx(caller.Blocks[0].Instrs[0])
-					for _, s := range cs {
-						if L, R, err := parseContract(s, func(i int) ssa.Value {
-							if i < len(caller.Params) {
-								return caller.Params[i]
-							}
-							return nil
-						}, clp, ccx); err == nil {
-							clp.pre = append(clp.pre, linFact{L.sub(R), "contract " + s})
-						}
-					}
-				}
-				cx := clp.newCtx(e.Site)
-				for _, s := range table.Contracts[name] {
-					L, R, err := parseContract(s, func(i int) ssa.Value { return c03ArgAt(e.Site, i) }, clp, cx)
-					key := "C03.R3:" + name + "@" + fnName(caller) + ":" + s
-					if err != nil {
-						c.Undecided(key, r3, p.InstrPos(e.Site), err.Error())
-						continue
-					}
-					if j, ok := table.just[fnName(caller)+"|contract|"+name+":"+s]; ok && !clp.proveAt(e.Site, L, R, 0, nil) {
-						c.OK(key, r3+" [justified: "+j.Reason+"]", p.InstrPos(e.Site))
-						continue
-					}
-					c.Req(clp.proveAt(e.Site, L, R, 0, nil), key, r3, p.InstrPos(e.Site), "the caller does not establish `"+s+"` (p<i> = argument i, receiver first) before calling "+name+": the callee's index/slice expressions rely on it")
-				}
-			}
-		}
-		if nSites == 0 {
-			c.Notes = append(c.Notes, "contract of "+name+" has no call site inside the repository: trusted as an API precondition")
+	for i, ax := range linAxioms {
+		if !linAxiomUsed[i] {
+			c.Notes = append(c.Notes, fmt.Sprintf("axiom %s %s%s/%s not used by any proof on this tree", ax.Kind, ax.Callee, ax.Type, ax.Field))
 		}
 	}
-	c.Notes = append(c.Notes, fmt.Sprintf("C03 scope: %d functions; sites: compiler-proved=%d implicit=%d hv-proved=%d table-justified=%d", len(fns), counts["compiler-proved"], counts["implicit"], counts["hv-proved"], counts["table"]))
-	c.Floor("C03.R1:sites-needing-proof", counts["hv-proved"]+counts["table"], 25)
+	c.Notes = append(c.Notes, fmt.Sprintf("C03 scope: %d functions; sites: compiler-proved=%d implicit=%d hv-proved=%d hv-proved-with-caller-preconditions=%d (preconditions verified at %d call sites) table-justified=%d", len(fns), counts["compiler-proved"], counts["implicit"], counts["hv-proved"], counts["hv-proved-with-caller-preconditions"], lifter.nSites, counts["table"]))
+	c.Floor("C03.R1:sites-needing-proof", counts["hv-proved"]+counts["hv-proved-with-caller-preconditions"]+counts["table"], 25)
 }
